@@ -250,9 +250,8 @@ func (ex *Exec) newTimer(d *Term, ticker bool) Value {
 		name = "Ticker"
 	}
 	tt := ex.prog.ImportedPackage("time").Type(name).Type()
-	ex.nextObj++
 	ts := &timerState{ID: len(ex.timers) + 1, ArmedAt: ex.now(), D: d, Ticker: ticker}
-	ts.Ch = &ChanV{ID: ex.nextObj, Cap: 1, Label: fmt.Sprintf("timer%d.C", ts.ID), TimerID: ts.ID}
+	ts.Ch = &ChanV{ID: ex.freshID(), Cap: 1, Label: fmt.Sprintf("timer%d.C", ts.ID), TimerID: ts.ID}
 	ex.allChans = append(ex.allChans, ts.Ch)
 	ex.timers = append(ex.timers, ts)
 	if ex.conc != nil {
